@@ -19,6 +19,5 @@ CaseOf(m) == LET r == Read(Write(m)) IN
 ExportInv == pc = "start" => PrintT(<<"CASE", ToJson(CaseOf(mol))>>)
 \* only the initial states (one per molecule)
 XSpec == Init /\ [][FALSE]_vars
-MolsFind == MolsMassOnly \cup MolsUnbacked
 CountInv == pc = "start" => TRUE
 =============================================================================
